@@ -310,8 +310,8 @@ func (m *Machine) runFrame(fr *frame) {
 		instrs := fr.executePhis()
 		for _, instr := range instrs {
 			m.steps++
-			if m.steps > maxSteps {
-				m.abort(abBlocked, "step limit %d exceeded (non-termination?) in %s", maxSteps, fr.fn)
+			if m.steps > maxSteps || (m.E.Opt.MaxSteps > 0 && m.steps > int64(m.E.Opt.MaxSteps)) {
+				m.abort(abBlocked, "step limit exceeded after %d instructions (non-termination?) in %s", m.steps, fr.fn)
 			}
 			if p := instr.Pos(); p.IsValid() {
 				fr.curPos = p
